@@ -384,3 +384,157 @@ def boost_exemptions(rng, case):
                 {"kind": "full", "version": v, "criteria": crit_list(rng, crits), "notes": notes(),
                  **({"importable": False} if rng.random() < 0.3 else {})})
     return case
+
+
+# ---------------------------------------------------------------------------
+# unlocked cases: peers served over the mock network + a mock crates.io
+
+def local_crit_index(store):
+    names = BUILTINS + sorted(store["criteria"])
+    return names, {n: i for i, n in enumerate(names)}
+
+
+def py_closure(store, name):
+    seen = {name}
+    work = [name]
+    while work:
+        x = work.pop()
+        imp = ["safe-to-run"] if x == "safe-to-deploy" else store["criteria"].get(x, {}).get("implies", [])
+        for y in imp:
+            if y not in seen:
+                seen.add(y)
+                work.append(y)
+    return seen
+
+
+def py_minimal_names(store, names_set):
+    order, idx = local_crit_index(store)
+    out = [c for c in names_set
+           if not any(o != c and c in py_closure(store, o) for o in names_set)]
+    return sorted(out, key=lambda c: idx[c])
+
+
+def localise(store, peer_table, cmap, crit):
+    """what fetch_single_imported_audit rewrites a peer entry's criteria list to"""
+    def pclosure(name):
+        seen = {name}
+        work = [name]
+        while work:
+            x = work.pop()
+            imp = ["safe-to-run"] if x == "safe-to-deploy" else peer_table.get(x, {}).get("implies", [])
+            for y in imp:
+                if y not in seen:
+                    seen.add(y)
+                    work.append(y)
+        return seen
+    foreign = set()
+    for c in crit:
+        foreign |= pclosure(c)
+    local = set()
+    for f in foreign:
+        if f in cmap:
+            for l in cmap[f]:
+                local |= py_closure(store, l)
+        elif f in BUILTINS:
+            local |= py_closure(store, f)
+    return py_minimal_names(store, local)
+
+
+def gen_unlocked_case(rng, cid, p_violation=0.05, ncustom=None):
+    pkgs = gen_graph(rng)
+    store = gen_store(rng, pkgs, p_violation=p_violation, with_imports=False, ncustom=ncustom)
+    notes = Notes()
+    notes.n = 5000
+    crits = _crits(store)
+    customs = sorted(store["criteria"])
+    versions = {}
+    for p in pkgs:
+        versions.setdefault(p["name"], []).append(vstr(p))
+    names = sorted(versions)
+    peers_struct = {}
+    for peer, url in PEERS[:rng.choice([0, 1, 1, 2])]:
+        ptable = {}
+        cmap = {}
+        if rng.random() < 0.6:
+            ptable["peer-x"] = {"description": "peer x", "implies": rng.choice([[], ["safe-to-run"], ["safe-to-deploy"]])}
+            if rng.random() < 0.8:
+                cmap["peer-x"] = crit_list(rng, crits)
+        if rng.random() < 0.15:
+            cmap["safe-to-deploy"] = rng.choice([[], ["safe-to-run"], crit_list(rng, crits)])
+        pcrits = BUILTINS + sorted(ptable)
+        imp = {"url": [url]}
+        if cmap:
+            imp["criteria-map"] = cmap
+        store["imports"][peer] = imp
+        pf = {"criteria": ptable, "audits": {}, "wildcard_audits": {}, "trusted": {}}
+        lockf = {"criteria": {k: {"description": ptable[k]["description"]} for k in ptable if k in cmap},
+                 "audits": {}, "wildcard_audits": {}}
+        for n in names:
+            if rng.random() < 0.6:
+                l = gen_audits_for(rng, n, versions.get(n, []), pcrits, notes, False, p_violation)
+                for a in l:
+                    pf["audits"].setdefault(n, []).append(a)
+                    # already imported (non-fresh) with some probability
+                    if rng.random() < 0.45:
+                        la = dict(a)
+                        la["criteria"] = localise(store, ptable, cmap, a["criteria"])
+                        lockf["audits"].setdefault(n, []).append(la)
+            if rng.random() < 0.25:
+                for w in gen_wildcards(rng, pcrits, notes):
+                    pf["wildcard_audits"].setdefault(n, []).append(w)
+                    if rng.random() < 0.5:
+                        lw = dict(w)
+                        lw["criteria"] = localise(store, ptable, cmap, w["criteria"])
+                        lockf["wildcard_audits"].setdefault(n, []).append(lw)
+            if rng.random() < 0.1:
+                pf["trusted"][n] = gen_wildcards(rng, pcrits, notes, trusted=True)   # must have no effect
+            # an entry only in the lock (revoked upstream)
+            if rng.random() < 0.15:
+                a = gen_audits_for(rng, n, versions.get(n, []), crits, notes, False, 0.0)
+                for x in a:
+                    x["criteria"] = py_minimal_names(store, set().union(*[py_closure(store, c) for c in x["criteria"]]))
+                    lockf["audits"].setdefault(n, []).append(x)
+        peers_struct[url] = pf
+        if rng.random() < 0.8:
+            store["lock"]["audits"][peer] = lockf
+    # mock crates.io: every crate of the graph; versions around the graph's
+    users = [[1, "user1", "User 1"], [2, "user2", "User 2"], [3, "user3", "User 3"]]
+    reg = {}
+    for n in names:
+        vs = set(rng.sample(VERSIONS, rng.choice([1, 2, 3])))
+        for p in pkgs:
+            if p["name"] == n:
+                if p["source"] == "registry":
+                    vs.add(p["version"])
+                elif rng.random() < 0.5:
+                    vs.add(p["version"])
+        reg[n] = [{"version": v, "by": rng.choice([1, 2, 3, 3, None]), "when": rng.choice(DATES[:6])} for v in sorted(vs)]
+    # bias: lock publishers agree with the registry for some versions
+    for n, l in list(store["lock"]["publisher"].items()):
+        byv = {r["version"]: r for r in reg.get(n, [])}
+        for p in l:
+            r = byv.get(p["version"])
+            if r and r["by"] and rng.random() < 0.7:
+                p["user-id"] = r["by"]
+                p["user-login"] = f"user{r['by']}"
+                p["user-name"] = f"User {r['by']}"
+                p["when"] = r["when"]
+    case = {"id": cid, "kind": "resolve", "graph": {"packages": pkgs}, "store_struct": store,
+            "peers_struct": peers_struct, "registry": {"users": users, "packages": reg, "meta": {}},
+            "mode": "unlocked", "allow_criteria_changes": True}
+    return finalize(case)
+
+
+ALL_MODES = [
+    {"search": "PreferExemptions", "prune_exemptions": False, "prune_audits": False, "prune_imports": False},   # check
+    {"search": "PreferFreshImports", "prune_exemptions": True, "prune_audits": True, "prune_imports": True},     # prune / import / regenerate imports
+    {"search": "RegenerateExemptions", "prune_exemptions": True, "prune_audits": True, "prune_imports": True},  # init / regenerate exemptions
+    {"search": "PreferExemptions", "prune_exemptions": False, "prune_audits": True, "prune_imports": True},     # prune --no-exemptions
+    {"search": "PreferFreshImports", "prune_exemptions": True, "prune_audits": False, "prune_imports": False},  # prune --no-audits --no-imports
+]
+
+
+def certify_mode(target):
+    return {"search": "PreferFreshImports", "prune_exemptions": True, "prune_audits": True, "prune_imports": False,
+            "target": target,
+            "other": {"search": "PreferExemptions", "prune_exemptions": False, "prune_audits": False, "prune_imports": False}}
